@@ -149,20 +149,33 @@ PROPS = {
     "C08": {
         "units": ["nat"],
         "level": "other",
-        "property_obligations": ["contains_symbol_or_infimum_or_supremum", "is_term_regular_of_first_kind", "is_term_regular_of_second_kind",
-                                 "p2f_int_term", "p2f", "lemma_p2f_int_value", "Program::mu"],
-        "carriers": [],
-        "explanation": "Pieces of C08 under contract (Verus, real code): the three regularity predicates equal the documented definitions (spec_sis, spec_reg1, spec_reg2); p2f_int_term and p2f equal their spec mirrors, "
-                       "and lemma_p2f_int_value proves that a term p2f_int_term translates has, when its variables hold integers, exactly the integer value the translated term denotes and no value otherwise "
-                       "(w.r.t. the mini-gringo term semantics in_vals of C01) — i.e. integer-sorted variables are sound for such terms; Mu::mu never fails and emits, rule by rule, the natural translation when it exists and "
-                       "tau* otherwise. NOT decided: HT-equivalence of natural_rule with tau_star_rule at the level of whole rules (natural_comparison, literals, heads with intervals, int_variables, "
-                       "fresh_variables_for_head_atom — iterator chains with closures over Option, enumerate, unbounded `loop`).",
+        "property_obligations": ["natural_rule", "natural", "Program::mu", "natural_head", "natural_basic_head", "natural_choice_head", "natural_head_atom", "natural_head_interval",
+                                 "natural_constraint", "fresh_variables_for_head_atom", "natural_body", "natural_b_literal", "natural_b_atom", "natural_comparison", "int_variables",
+                                 "contains_symbol_or_infimum_or_supremum", "is_term_regular_of_first_kind", "is_term_regular_of_second_kind", "p2f_int_term", "p2f",
+                                 "lemma_nat_rule", "lemma_nat_matrix", "lemma_nat_head", "lemma_head_tuple", "lemma_head_onto", "lemma_head_conds", "lemma_nat_body", "lemma_nat_af",
+                                 "lemma_nat_literal", "lemma_nat_cmp_plain", "lemma_nat_cmp_interval", "lemma_p2f_value", "lemma_p2f_int_value", "lemma_iv_trivial", "lemma_closed_from_iv",
+                                 "lemma_head_names_distinct", "lemma_ucl_inst_ht", "lemma_ucl_intro_ht"],
+        "carriers": ["asp::Term::variables", "asp::Atom::variables", "Formula::universal_closure"],
+        "explanation": "C08 is proved on the real code (Verus, unbounded) at the level of rules: whenever natural_rule(r) returns Some(f), f is a closed sentence that is true in an HT interpretation <H,T> "
+                       "(H subset of T, at either world) exactly when every ground instance of r is satisfied (rule_ok against the oracle rule_sat of C01) — the very contract proved for tau_star_rule in unit tau, "
+                       "so the two translations are HT-equivalent rule by rule; natural(program) returns such a theory or None; mu never fails and returns, rule by rule, a sentence with that meaning "
+                       "(the natural one where it exists, tau* otherwise). Under contract, each on the real body: the regularity predicates, p2f/p2f_int_term (a kept term has exactly one value: that of its translation), "
+                       "int_variables (EXACTLY Lifschitz' integer variables: occurrence in an argument or comparison side built with an operation or interval, or on the left of t1 = t2..t3), "
+                       "natural_comparison (incl. t1 = t2..t3 as t2 <= t1 <= t3), natural_b_atom/_literal/_body, fresh_variables_for_head_atom (one N<i> or N<i>_<j> per interval argument, pairwise "
+                       "distinct, not a variable of the atom, search terminates), natural_head_atom/_interval/_basic_head/_choice_head/_head/_constraint, natural_rule, natural, mu. "
+                       "The last sentence of C08 (integer-sorted variables only where every satisfying value is necessarily an integer) is lemma_iv_trivial: a ground instance giving an integer variable a "
+                       "non-integer value is satisfied trivially.",
         "assumptions": [
-            "natural_rule, tau_star_rule, choose_fresh_global_variables are stand-ins inside Mu::mu (their own correctness is C01 / the uncovered part of C08)",
-            "rule-level equivalence natural vs tau*: NOT verified",
-            "indexmap `contains` accepts borrowed keys (&str for String)",
+            "ASSUMED CONTRACT asp::Rule::terms (for_each / cloned().collect() chains in the syntax-tree module): returns exactly the arguments and comparison sides of the rule",
+            "tau_star_rule / choose_fresh_global_variables inside mu carry the contracts proved (resp. assumed as a composition) in unit tau (C01)",
+            "INPUT SIZE: a head atom has fewer than 2^31 - 1 variable occurrences (the search counter j of fresh_variables_for_head_atom is an i32): precondition small_head / small_program",
+            "D19: Mu::mu verified as an inherent method; D14/D24/D27 desugarings (enumerate loops; extend(map) -> insert loop; map/collect::<Option<Vec>>? -> loop with ?)",
+            "SPEC ASSUMPTION shared with C01: the mini-gringo semantics in_vals of spec/tau_spec.rs (division convention) is the reference for both translations",
+            "internal contracts of the body/head translators are SHAPE contracts (which formula is built); their meaning is given by the lemmas of spec/natrule_spec.rs, nathead2_spec.rs, natfinal_spec.rs — "
+            "a meaning-preserving restructuring of these functions needs the shape predicates updated (it is reported as a failed obligation)",
+            "indexmap `contains` accepts borrowed keys (&str for String); Display of i32/usize is the decimal numeral (T8)",
         ],
-        "not_covered": ["natural_rule (rule level)", "int_variables", "fresh_variables_for_head_atom", "natural_head_*", "natural_comparison"],
+        "not_covered": ["asp::Rule::terms (assumed)", "impl Natural for Program / impl Mu for Program trait wrappers"],
     },
     "C09": {
         "units": ["problem"],
